@@ -39,6 +39,7 @@ type Clause struct {
 
 type LoopContract struct {
 	Invariants []*Clause
+	Steps      []*Clause // two-state clauses checked on every back edge; prev(e) is e at the loop head
 	Decreases  *Clause
 }
 
@@ -82,7 +83,7 @@ type ContractSet struct {
 }
 
 var reLine = regexp.MustCompile(`^\s*//\s?@\s?(.*)$`)
-var reHead = regexp.MustCompile(`^(requires|ensures|invariant)(\[[A-Za-z0-9, ]*\])?\s+(?:([A-Za-z_][A-Za-z0-9_#\-]*):\s+)?(.*)$`)
+var reHead = regexp.MustCompile(`^(requires|ensures|invariant|step)(\[[A-Za-z0-9, ]*\])?\s+(?:([A-Za-z_][A-Za-z0-9_#\-]*):\s+)?(.*)$`)
 
 func splitTags(s string) []string {
 	s = strings.Trim(s, "[]")
@@ -297,6 +298,12 @@ func (cs *ContractSet) line(cur **Contract, text, file string, ln int) error {
 				return err
 			}
 			lc.Invariants = append(lc.Invariants, cl)
+		case strings.HasPrefix(body, "step"):
+			cl, err := mk("step", body[len("step"):])
+			if err != nil {
+				return err
+			}
+			lc.Steps = append(lc.Steps, cl)
 		case strings.HasPrefix(body, "decreases "):
 			e, err := ParseExpr(strings.TrimPrefix(body, "decreases "))
 			if err != nil {
